@@ -6,9 +6,10 @@ CCR == [msg |-> [app |-> 4, code |-> 272, req |-> TRUE], short |-> "CC"]
 CCA == [msg |-> [app |-> 4, code |-> 272, req |-> FALSE], short |-> "CC"]
 MCD == {"d1", "d2"}
 MCR == {"r1", "r2"}
-MCMsgs == {CCR, CCA}
+MCMsgs == {CCR}
 \* the request by name, by index, the catch-all, and the request's index again (replacement)
 MCRegs == {Reg("name", 0, 0, FALSE, "CCR", 1), Reg("idx", 4, 272, TRUE, "", 2), Reg("all", 0, 0, FALSE, "", 3), Reg("idx", 4, 272, TRUE, "", 4)}
+MCRegs3 == {Reg("idx", 4, 272, TRUE, "", 2), Reg("all", 0, 0, FALSE, "", 3), Reg("idx", 4, 272, TRUE, "", 4)}
 \* cur / arg of an idle process are don't-cares: one initial value
 MCInit == Init /\ cur = [p \in D |-> CCR] /\ arg = [r \in R |-> Reg("all", 0, 0, FALSE, "", 3)]
 MCSpec == MCInit /\ [][Next]_vars
